@@ -30,6 +30,11 @@ def child_machine(kind):
     T, P, Wt, SM = S.T, S.P, S.Wt, S.SM
     if kind == "slow":
         return S.chain(("CW", Wt(10)), ("C2", P(Result={"c": "late"})))
+    if kind == "elapsed-wait-then-task":
+        # a Wait that is over as soon as it is entered, then a Task that never answers
+        return S.chain(("CW", Wt(0)), ("C1", T("h")), ("C2", P()))
+    if kind == "wait-then-task":
+        return S.chain(("CW", Wt(1)), ("C1", T("h")), ("C2", P()))
     return S.chain(("C0", P()), ("C1", T("h")), ("C2", P()))
 
 
@@ -148,7 +153,11 @@ def token_obs(oid, calls, worker_reply):
     task = {"Type": "Task", "Resource": "arn:aws:states:local::rpcmessage:invoke.waitForTaskToken",
             "Parameters": {"FunctionName": FNA, "Payload": {"token.$": "$$.Task.Token", "x": 1}},
             "ResultPath": "$.r", "End": True}
-    oracle = {"tok": [{"silent": True}]} if worker_reply != "before" else {"tok": [{"ok": {"ordinary": "reply"}}]}
+    # the ordinary reply's body: any JSON text (an acknowledgement need not be an object)
+    BODIES = {"": {"ordinary": "reply"}, "str": "accepted", "num": 202, "null": None, "arr": ["accepted"], "emptyobj": {}}
+    wr_body = BODIES[worker_reply.split(":")[1]] if worker_reply and ":" in worker_reply else {"ordinary": "reply"}
+    worker_reply = worker_reply.split(":")[0] if worker_reply else worker_reply
+    oracle = {"tok": [{"silent": True}]} if worker_reply != "before" else {"tok": [{"ok": wr_body}]}
     scn = S.scn("c15tok", S.SM("K", K=task), inputs=({"in": 1},), oracle=oracle, workers=["tok"])
     w = setup_world(scn)
     do_starts(w, scn)
@@ -182,7 +191,7 @@ def token_obs(oid, calls, worker_reply):
         corr = [c for (t, fn, c, p, sn) in w.rpc_seen][-1]
         rq = base64.b64decode(tok).decode().split(":")[1]
         w.rec.begin_frame("wreply", fn="tok", corr=corr, trig=[])
-        w.worker_publish(rq, corr, json.dumps({"ordinary": "late"}).encode())
+        w.worker_publish(rq, corr, json.dumps({"ordinary": "late"} if wr_body == {"ordinary": "reply"} else wr_body).encode())
         w.rec.end_frame()
         w.run()
     prec = w.outcome(parent)
@@ -199,7 +208,7 @@ def token_obs(oid, calls, worker_reply):
 def cancel_obs(oid, child_kind):
     """the parent's task times out while its synchronous child is blocked on a task / a wait"""
     cname = "kidsm"
-    machines = [{"name": cname, "type": "STANDARD", "asl": child_machine("slow" if child_kind == "wait" else "task")}]
+    machines = [{"name": cname, "type": "STANDARD", "asl": child_machine({"wait": "slow", "task": "task"}.get(child_kind, child_kind))}]
     scn = S.scn("c15cancel", parent_machine("sync", cname, timeout=2), inputs=({"in": 1},), extra_machines=machines,
                 oracle={"h": [{"silent": True}]}, workers=["h"])
     w = setup_world(scn)
@@ -216,8 +225,12 @@ def cancel_obs(oid, child_kind):
                 z = e["sizes"][0]
                 left = {"cancellers": z["cancellers"], "pending": z["pending"], "waits": sum(1 for t in z["timers"] if t in ("wait", "tasktimeout", "sfntimeout"))}
         after_rpcs = sum(1 for e in ev if e["k"] == "pub" and e.get("kind") == "rpc" and e["fr"] > pf)
+    # the cancelled child ends exactly once (and the parent too)
+    child_terms = collections.Counter(e["exec"] for e in ev if e["k"] == "note" and e["exec"] != parent and e["status"] in ("SUCCEEDED", "FAILED"))
+    parent_terms = sum(1 for e in ev if e["k"] == "note" and e["exec"] == parent and e["status"] in ("SUCCEEDED", "FAILED"))
     w.close()
-    return {"id": oid, "kind": "cancel", "form": "sync", "ptype": "STANDARD", "ctype": "STANDARD", "coutcome": "",
+    twice = parent_terms > 1 or any(n > 1 for n in child_terms.values())
+    return {"id": oid, "kind": "cancel", "form": "sync", "endedtwice": twice, "ptype": "STANDARD", "ctype": "STANDARD", "coutcome": "",
             "child": {"arn": "", "outputJson": tagged.enc(None), "outputText": "", "error": ""},
             "task": {"kind": "none", "v": tagged.enc(None), "error": "", "cause": tagged.enc(None)}, "order": "n/a",
             "childstarted": True, "wrap": child_kind, "calls": [], "responses": [], "completedBy": 0, "early": pf is None,
@@ -285,7 +298,12 @@ def run(tier_name=None, replay=None):
     for st in streams:
         for wr in (None, "before", "after"):
             add(token_obs(oid(), st, wr), {"stream": [(a, tk) for a, tk, p in st], "ordinary_reply": wr})
-    for ck in ("task", "wait"):
+    for st in streams[:2] + streams[5:6]:
+        for body in ("str", "num", "null", "arr", "emptyobj"):
+            for when in ("before", "after"):
+                wr = when + ":" + body
+                add(token_obs(oid(), st, wr), {"stream": [(a, tk) for a, tk, p in st], "ordinary_reply": wr})
+    for ck in ("task", "wait", "elapsed-wait-then-task", "wait-then-task"):
         add(cancel_obs(oid(), ck), {"cancel": ck})
     try:
         fails, stats = judge.run_judge("JudgeC15", obs, os.path.join(RUN, "C15-" + t))
